@@ -73,6 +73,27 @@ func (s *stream) ReassembledSG(sg reassembly.ScatterGather, ac reassembly.Assemb
 		fail("sg-lengths", fmt.Sprintf("Lengths()=(%d,%d) Fetch gave %d bytes", l, saved, len(all)))
 		return
 	}
+	// a shorter Fetch returns a prefix of the available bytes (all lengths for short hand-overs;
+	// around the saved/new boundary, the middle and the ends for long ones)
+	whole := append([]byte(nil), all...)
+	var ks []int
+	if l <= 8 {
+		for k := 0; k <= l; k++ {
+			ks = append(ks, k)
+		}
+	} else {
+		ks = []int{0, 1, saved - 1, saved, saved + 1, l / 2, 1899, 1900, 1901, l - 1}
+	}
+	for _, k := range ks {
+		if k < 0 || k > l {
+			continue
+		}
+		if part := sg.Fetch(k); len(part) != k || string(part) != string(whole[:k]) {
+			fail("fetch-not-a-prefix", fmt.Sprintf("Fetch(%d) of %d available bytes (%d saved) returned %d bytes that are not the first %d of Fetch(%d)", k, l, saved, len(part), k, l))
+			break
+		}
+	}
+	all = whole
 	if s.inst == hs.insts[len(hs.insts)-1] {
 		k, w := s.inst.Deliver(hs.dir, tm.Delivery{Skip: skip, Bytes: all[saved:], Start: start, End: end, Saved: all[:saved], HasSaved: true, SavedMayDropOnSkip: true}, hs.ctx)
 		if k != "" {
@@ -225,11 +246,11 @@ func main() {
 	// quick: 5 ISNs (0, the half-space boundary, two ISNs putting the wrap inside the stream,
 	// 2^32-1) x 3 limit settings x 2 keep behaviours; thorough: the full grid
 	isns := []uint32{0, 1<<31 - 3, uint32(uint64(1)<<32 - uint64(n) - 3), 1<<32 - 3, 1<<32 - 1}
-	limits := [][2]int{{0, 0}, {2, 0}, {0, 2}}
+	limits := [][2]int{{0, 0}, {2, 0}, {0, 2}, {0, 3}}
 	keeps := []int{0, 3, 4}
 	if r.Thorough() {
 		isns = tm.ISNs(n)
-		limits = [][2]int{{0, 0}, {1, 0}, {2, 0}, {0, 2}, {1, 2}}
+		limits = [][2]int{{0, 0}, {1, 0}, {2, 0}, {0, 2}, {1, 2}, {0, 3}}
 		keeps = []int{0, 1, 2, 3, 4, 5}
 	}
 	alpha := tm.Alphabet(n, true, false)
